@@ -480,7 +480,7 @@ func validateChunk(c *core.Ctx, traces []*trace) error {
 			total += t.ndjson(&buf)
 		}
 		res, err := c.RunTLC(core.TLCRun{Module: "QueryProtoTrace", Cfg: "QueryProtoTrace.trace.cfg",
-			Files: map[string][]byte{"trace.ndjson": buf.Bytes()}, Workers: 1, Timeout: 15 * time.Minute})
+			Files: map[string][]byte{"trace.ndjson": buf.Bytes()}, Workers: 1, Timeout: 40 * time.Minute})
 		if res == nil {
 			return err
 		}
